@@ -20,7 +20,7 @@ sed -i "s|\"/repo/src|\"$R/repo/src|g" $R/verif/kani/src/lib.rs $R/verif/astgen/
 cd $R/verif
 ARGS="$PROP --tier $TIER"
 [ -n "$ONLY" ] && ARGS="$ARGS --only $ONLY"
-PLSV_BUILD=$R/build PLSV_JOBS=${PLSV_JOBS:-4} ./check $ARGS > $R/log.txt 2>&1
+PLSV_REPO=$R/repo PLSV_BUILD=$R/build PLSV_JOBS=${PLSV_JOBS:-4} ./check $ARGS > $R/log.txt 2>&1
 RC=$?
 {
   echo "=== $(date -u +%FT%TZ) seed=$SEED check=\"./check $ARGS\" exit=$RC (scratch copy: repo worktree of $(git -C /repo rev-parse --short HEAD) + patch$FUZZ)"
